@@ -2374,6 +2374,21 @@ class Engine(object):
                 pnode, _, _ = load_function(a.__module__, a.__qualname__, _scratch.scratch_src())
                 self.trusted_used['inlined:' + q] = self.trusted_used.get('inlined:' + q, 0) + 1
                 return self.call_closure(PFunc(pnode, Frame(), name), [recv] + list(args), kwargs)
+            # a method of the receiver's class without a contract of its own: its body is part of the text being
+            # verified -- inlined (bounded depth; recursion is not followed)
+            depth = getattr(self, '_inline_depth', 0)
+            if depth < 4 and isinstance(a, types.FunctionType) and q != self.c.qualname:
+                from .. import scratch as _scratch
+                pnode, _, _ = load_function(a.__module__, a.__qualname__, _scratch.scratch_src())
+                self.trusted_used['inlined(no contract of its own):' + q] = self.trusted_used.get('inlined(no contract of its own):' + q, 0) + 1
+                saved = self.module
+                self.module = importlib.import_module(a.__module__)
+                self._inline_depth = depth + 1
+                try:
+                    return self.call_closure(PFunc(pnode, Frame(), name), [recv] + list(args), kwargs)
+                finally:
+                    self._inline_depth = depth
+                    self.module = saved
             raise Unsupported('method %s without contract' % q)
         if isinstance(recv, str) and name == 'join':
             return self.str_join(recv, args[0], node)
